@@ -64,6 +64,112 @@ def run_shard(exe, d, i, cases, tmo):
     return tr, lines
 
 
+# ---- converter level: the PLConstraint delivered for a function of an original variable ----
+CVT_FUNCS = {   # name: (expression of argument a, python function, [(lb, ub)] away from singular points)
+    "exp":   (lambda a: ("o", 44, a), math.exp, [(0, 5), (-3, 2)]),
+    "log":   (lambda a: ("o", 43, a), math.log, [(1, 20), (2, 9)]),
+    "sqrt":  (lambda a: ("o", 39, a), math.sqrt, [(1, 16), (4, 30)]),
+    "pow15": (lambda a: ("o", 76, a, ("n", 1.5)), lambda x: x ** 1.5, [(1, 9), (2, 30)]),
+    "log10": (lambda a: ("o", 42, a), math.log10, [(1, 50), (3, 12)]),
+    "tanh":  (lambda a: ("o", 37, a), math.tanh, [(-2, 2), (0, 3)]),
+    "atan":  (lambda a: ("o", 49, a), math.atan, [(-3, 3), (0, 6)]),
+    "sinh":  (lambda a: ("o", 40, a), math.sinh, [(0, 3), (-2, 2)]),
+    "cosh":  (lambda a: ("o", 45, a), math.cosh, [(0, 3), (-2, 2)]),
+    "asinh": (lambda a: ("o", 50, a), math.asinh, [(-4, 4), (0, 9)]),
+    "acosh": (lambda a: ("o", 52, a), math.acosh, [(2, 9), (3, 20)]),
+}
+CVT_OFF = ["acc:exp=0", "acc:log=0", "acc:pow=0", "acc:expa=0", "acc:loga=0", "acc:tanh=0", "acc:atan=0", "acc:sinh=0", "acc:cosh=0",
+           "acc:asinh=0", "acc:acosh=0"]
+# the two terms of a model: (integer?, which of the function's intervals); one term = single
+CVT_ARR = {"c": [(0, 0)], "i": [(1, 0)], "i+c": [(1, 0), (0, 0)], "c+i": [(0, 0), (1, 0)], "c+c'": [(0, 0), (0, 1)], "i+i'": [(1, 0), (1, 1)],
+           "i'+c": [(1, 1), (0, 0)]}
+
+
+def pl_eval(xs, ys, t):
+    import bisect
+    j = min(max(bisect.bisect_right(xs, t), 1), len(xs) - 1)
+    x0, x1, y0, y1 = xs[j - 1], xs[j], ys[j - 1], ys[j]
+    return y0 if x1 == x0 else y0 + (y1 - y0) * (t - x0) / (x1 - x0)
+
+
+def converter_stage(tier, v, d):
+    """Whole conversions: models with one or two terms f(x) of original variables, the functions not accepted by the
+    solver; every delivered PLConstraint is measured against f on the delivered bounds of its argument."""
+    import drv, targets as tg
+    exe = tg.get("h_drv")
+    cases = []
+    for fn, (mk, f, ivs) in sorted(CVT_FUNCS.items()):
+        for arr, terms in sorted(CVT_ARR.items()):
+            for tol in ((0.01, 0.1, 0.001) if tier == "thorough" else (0.01,)):
+                mvars, expr = [], None
+                for isint, which in terms:
+                    lb, ub = ivs[which]
+                    mvars.append({"lb": lb, "ub": ub, "int": bool(isint)})
+                    t = mk(("v", len(mvars) - 1))
+                    expr = t if expr is None else ("o", 0, expr, t)
+                # the terms sit in the objective (a constraint  exp(x) + ... <= c  would be taken for a cone)
+                m = {"vars": mvars, "cons": [{"lb": None, "ub": 1000, "lin": [[i, 1] for i in range(len(mvars))]}], "lcons": [],
+                     "objs": [{"max": len(cases) % 2 == 0, "lin": [], "expr": expr}]}
+                cases.append({"id": len(cases), "model": m, "opts": CVT_OFF + ["cvt:plapprox:reltol=%g" % tol], "answer": "status 0 ok\n",
+                              "fn": fn, "arr": arr, "tol": tol})
+    runs = drv.run_cases(exe, PID + "-cvt", cases)
+    lines = []
+    for c, r in zip(cases, runs):
+        f = CVT_FUNCS[c["fn"]][1]
+        perm = r["nlinfo"]["perm"]                       # model variable -> file position
+        nv = len(c["model"]["vars"])
+        vars_ev = next((e for e in r["rec"] if e["e"] == "Vars"), None)
+        pls = [e for e in r["rec"] if e["e"] == "Con" and e["type"] == "PLConstraint"]
+        got = {}
+        for e in pls:
+            a = e["d"]["args"][0]
+            if a < nv:
+                got[a] = e
+        for mi in range(nv):
+            a = perm[mi]
+            e = got.get(a)
+            if e is None or vars_ev is None or r["rc"] != 0:
+                lines.append({"e": "Missing", "id": c["id"], "arg": mi, "rc": r["rc"]})
+                continue
+            xs, ys = e["d"]["params"]["x"], e["d"]["params"]["y"]
+            lb, ub = vars_ev["lb"][a], vars_ev["ub"][a]
+            isint = vars_ev["ty"][a] == 1
+            if isint:
+                pts = [float(t) for t in range(int(math.ceil(lb)), int(math.floor(ub)) + 1)]
+            else:
+                pts = [lb, ub] + [t for t in xs if lb <= t <= ub]
+                for x0, x1 in zip(xs, xs[1:]):
+                    pts += [x0 + (x1 - x0) * k / 8 for k in range(1, 8) if lb <= x0 + (x1 - x0) * k / 8 <= ub]
+            worst, wt = 0, None
+            for t in pts:
+                ft = f(t)
+                pm = int(math.floor(min(999999.0, abs(pl_eval(xs, ys, t) - ft) / (c["tol"] * max(1.0, abs(ft))) * 1000.0)))
+                if pm > worst:
+                    worst, wt = pm, t
+            lines.append({"e": "PL", "id": c["id"], "arg": mi, "isint": isint, "nbp": len(xs),
+                          "covered": bool(xs and xs[0] <= lb + 1e-9 * max(1, abs(lb)) and xs[-1] >= ub - 1e-9 * max(1, abs(ub))),
+                          "increasing": all(x0 < x1 for x0, x1 in zip(xs, xs[1:])),
+                          "worst": worst, "at": repr(wt), "nsamples": len(pts)})
+    tp = os.path.join(d, "delivered-%s.ndjson" % tier)
+    with open(tp, "w") as fh:
+        for e in lines:
+            fh.write(json.dumps(e) + "\n")
+    ok, res = validate_trace("TracePLDelivered", "TracePLDelivered.cfg", tp, cwd=PL)
+    done = printed_json(res, "DONE")
+    if len(done) != 1 or done[0]["n"] != len(lines):
+        raise Broken("TracePLDelivered did not consume the trace\n" + res.out[-2000:])
+    byline = {i + 1: e for i, e in enumerate(lines)}
+    for b in printed_json(res, "BAD"):
+        e, c = byline[b["line"]], cases[b["id"]]
+        for w in sorted(b["wrong"]):
+            v.violation("cvt-%s:%s:%s:%s" % (w, c["fn"], c["arr"], "int" if e.get("isint") else "cont"),
+                        "conversion of %s, terms %s, reltol %g: the PLConstraint delivered for term %d is rejected (%s): %s"
+                        % (c["fn"], c["arr"], c["tol"], e["arg"], w, json.dumps(e)[:300]), {"case": {k: c[k] for k in ("fn", "arr", "tol", "model", "opts")}, "record": e})
+    npl = sum(1 for e in lines if e["e"] == "PL")
+    return {"models": len(cases), "delivered_pl_measured": npl, "states": res.distinct, "transitions": res.generated,
+            "bad": len(printed_json(res, "BAD"))}
+
+
 def run(tier):
     t0 = time.time()
     mc = tlc("MCPLShape", "MCPLShape.cfg", cwd=PL, workers=NPROC)
@@ -161,7 +267,10 @@ def run(tier):
     for key, _, _ in v.viol:
         byclause[key.split(":")[0]] = byclause.get(key.split(":")[0], 0) + 1
     log("[%s] rejected by clause: %s" % (PID.lower(), json.dumps(byclause, sort_keys=True)))
+    cvt = converter_stage(tier, v, outdir(PID))
     rcode, nnew = v.finish()
+    if rcode == 0 and cvt["delivered_pl_measured"] < 100:
+        raise Broken("converter stage measured only %d delivered PLConstraints" % cvt["delivered_pl_measured"])
     # non-vacuity: the situations the clauses speak about must have occurred (unless the
     # run already reports violations, e.g. every periodic call hanging)
     if met.get("skipped") and rcode == 0:
@@ -184,6 +293,7 @@ def run(tier):
         "explanation": "cases generated by TLC (GenPL: 17 function types x parameter menu (31 function/parameter pairs) x %d argument intervals x tolerances 1e-1..1e-6 x integer/continuous; %s); each case calls the real mp::PLApproximate in a forked child; the recorded result (atoms/ranks of breakpoints and reported domain, period fields, integer-shortcut observations) is validated by TLC as a run of the PLShape call machine. Decided: strict increase, first/last breakpoint = reported domain (remainder range if periodic), period factor range covers the argument interval, integer shortcut, size bound, termination/diagnosed refusal. NOT decided: the real-valued error bound." %
                        (len(INTERVALS), "all of them" if tier == "thorough" else "seeded stratified sample: three of the twelve (tolerance, integrality) combinations per (function, parameter, interval) stratum"),
         "design_check": {"module": "MCPLShape", "distinct_states": mc.distinct},
+        "converter_level": cvt,
         "rejected": nbad, "rejected_by_clause": byclause, "violations_new": nnew,
     }, time.time() - t0, violations=nnew,
         assumptions=["y range passed to PLApproximate is the converter's default +-1e6 (cvt:plapprox:domain)",
